@@ -139,6 +139,14 @@ type Run struct {
 	oooULIDs  map[string]bool
 	riskBound int64
 	headDeleted map[int]map[int64]int
+	// Known finding "snapshot-restart-reissues-series-ref": createdThisSession lists series that
+	// got a ref since the last open; ghostAtReopen is set when, with snapshot-on-shutdown, the
+	// database was reopened while such a series had no data in the head (it is in neither the
+	// snapshot nor, after the snapshot's WAL offset, the replayed WAL, so its ref number is free
+	// again); SnapRefRisk is set when a series is created after that.
+	createdThisSession map[int]bool
+	ghostAtReopen      bool
+	SnapRefRisk        bool
 	everCreated map[int]bool
 	dupStage    map[int]int
 	deletedRanges map[int][][2]int64
@@ -207,6 +215,34 @@ func (r *Run) noteHeadDeleted(from, to int) {
 	}
 }
 
+// KnownTriggerSeen reports whether the trigger pattern of a known finding that makes WAL
+// replay diverge (samples logged before their series record, or a series re-created under
+// a second ref) occurred and the database was reopened since.
+func (r *Run) KnownTriggerSeen() bool {
+	if len(r.taintedReopened) > 0 {
+		return true
+	}
+	for _, st := range r.dupStage {
+		if st >= 2 {
+			return true
+		}
+	}
+	return false
+}
+
+// OOODeleteSeen reports whether a delete covered a sample that was stored through the
+// out-of-order path (trigger of the known finding delete-misses-ooo-head-samples).
+func (r *Run) OOODeleteSeen() bool { return len(r.oooDeleteSurvivors) > 0 }
+
+func (r *Run) hasOOOHead(si int) bool {
+	for _, p := range r.M.Series[si].Pts {
+		if p.OOOHead {
+			return true
+		}
+	}
+	return false
+}
+
 func (r *Run) noteCheckpoint() {
 	r.noteHeadDeleted(1, 2)
 	for s, st := range r.dupStage {
@@ -265,7 +301,7 @@ func Start(h History, rec *ev.Rec) (*Run, error) {
 		return nil, err
 	}
 	r := &Run{Cfg: h.Cfg, Dir: dir, Rec: rec, Apps: map[int]*appState{}, Did: map[string]int{}, CheckAdmission: true,
-		oooDeleteSurvivors: map[int]map[int64]bool{}, deletedRanges: map[int][][2]int64{}, hiddenCands: map[int]map[int64]bool{}, oooULIDs: map[string]bool{}, riskBound: math.MinInt64, headDeleted: map[int]map[int64]int{}, everCreated: map[int]bool{}, dupStage: map[int]int{}, creator: map[int]int{}, established: map[int]bool{}, tainted: map[int]bool{}, taintedReopened: map[int]bool{}}
+		oooDeleteSurvivors: map[int]map[int64]bool{}, deletedRanges: map[int][][2]int64{}, hiddenCands: map[int]map[int64]bool{}, oooULIDs: map[string]bool{}, riskBound: math.MinInt64, createdThisSession: map[int]bool{}, headDeleted: map[int]map[int64]int{}, everCreated: map[int]bool{}, dupStage: map[int]int{}, creator: map[int]int{}, established: map[int]bool{}, tainted: map[int]bool{}, taintedReopened: map[int]bool{}}
 	r.M = tm.New(h.Cfg.NSeries, h.Cfg.ChunkRange, h.Cfg.OOOWindow)
 	if err := r.open(); err != nil {
 		os.RemoveAll(dir)
@@ -402,6 +438,12 @@ func (r *Run) exec(op Op) error {
 			if !inHead {
 				r.dupStage[op.S] = 1
 			}
+		}
+		if ser := r.M.Series[op.S]; !ser.HasLast && !r.hasOOOHead(op.S) {
+			if r.ghostAtReopen && !r.createdThisSession[op.S] {
+				r.SnapRefRisk = true
+			}
+			r.createdThisSession[op.S] = true
 		}
 		want := r.M.Append(a.model, op.S, op.T, op.V, reject)
 		r.everCreated[op.S] = true
@@ -624,6 +666,14 @@ func (r *Run) exec(op Op) error {
 		}
 		amv, _ := r.DB.Head().AppendableMinValidTime()
 		r.Trace = append(r.Trace, fmt.Sprintf("tsdb.Open; head min=%d max=%d appendableMinValid=%d; blocks %s", r.DB.Head().MinTime(), r.DB.Head().MaxTime(), amv, r.blocksString()))
+		if r.Cfg.Snapshot {
+			for si := range r.createdThisSession {
+				if !r.M.Series[si].HasLast && !r.hasOOOHead(si) {
+					r.ghostAtReopen = true
+				}
+			}
+		}
+		r.createdThisSession = map[int]bool{}
 		r.noteHeadDeleted(2, 3)
 		for s, st := range r.dupStage {
 			if st == 1 || st == 3 {
